@@ -386,4 +386,17 @@ theorem gen_check_fit_input_mixed_none_rejected (coords data : List Shape) (ws :
         simp only [if_true] at h
         exact throw_bind_ne_ok _ _ _ h
 
+/-! ### The regenerated source satisfies the property -/
+/-- The translated validation of `check_fit_input` accepts (weights all given, at least one) iff all coordinate shapes are equal, every data shape
+    equals them, there is one weight array per data component and each has the data's number of elements. -/
+theorem src_check_fit_input_accepts_iff (c0 : Shape) (cs data ws : List Shape) (hws : ws ≠ []) :
+    Gen.checkFitInput (c0 :: cs) data (ws.map some) = .ok () ↔
+      (∀ c ∈ cs, c = c0) ∧ (∀ d ∈ data, d = c0) ∧ ws.length = data.length ∧ ∀ w ∈ ws, ∀ d ∈ data, shapeSize w = shapeSize d := by
+  rw [gen_check_fit_input_weights_given, check_fit_input_accepts_iff]
+  constructor
+  · rintro ⟨h1, h2, h3⟩
+    exact ⟨h1, h2, (h3 ws rfl hws).1, (h3 ws rfl hws).2⟩
+  · rintro ⟨h1, h2, h3, h4⟩
+    exact ⟨h1, h2, fun ws' hw _ => by cases hw; exact ⟨h3, h4⟩⟩
+
 end Verde.C20
